@@ -212,6 +212,12 @@ def code_to_spec(ctx, gridmod, n):
             # quarter-cell lattice, clustered around one cell centre
             cx, cy = int(rng.integers(0, fc)) * 4 + 2, int(rng.integers(0, fr)) * 4 + 2
             pts = [[cx + int(rng.integers(-3, 4)), cy + int(rng.integers(-3, 4))] for _ in range(npts)]
+        if t % 5 == 2:
+            # remote gauges: every point is farther from the grid than the grid's own diagonal (quarter-cell units, even offsets)
+            far = 4 * (fr + fc) * int(rng.integers(2, 5))
+            npts = max(npts, 2)
+            pts = [[int(rng.choice([-1, 1])) * (far + 2 * int(rng.integers(0, 4 * fc))), int(rng.choice([-1, 1])) * (far + 2 * int(rng.integers(0, 4 * fr)))]
+                   for _ in range(npts)]
         if rng.random() < 0.3 and npts > 1:
             pts[1] = list(pts[0])
         w = gridmod.voronoi(cat, np.array([[fxll + p[0] * q, fyll + p[1] * q] for p in pts]))
